@@ -75,6 +75,26 @@ func Entropy() *rapid.Generator[Ent] {
 	})
 }
 
+// TextAlphabets: the alphabets of "text-like" byte strings (hex, digits, base64, printable).
+var TextAlphabets = []string{"0123456789abcdef", "0123456789ABCDEF", "0123456789abcdefABCDEF", "0123456789",
+	"ABCDEFGHIJKLMNOPQRSTUVWXYZabcdefghijklmnopqrstuvwxyz0123456789+/", "abcdefghijklmnopqrstuvwxyz ", " !\"#$%&'()*+,-./0123456789:;<=>?@ABCDEFGHIJKLMNOPQRSTUVWXYZ[\\]^_`abcdefghijklmnopqrstuvwxyz{|}~"}
+
+// TextBytes draws n bytes that all come from one textual alphabet (what a caller passes who
+// forgot to decode a hex or base64 string), or one repeated byte.
+func TextBytes(n int) *rapid.Generator[[]byte] {
+	return rapid.Custom(func(t *rapid.T) []byte {
+		e := make([]byte, n)
+		alpha := rapid.SampledFrom(TextAlphabets).Draw(t, "alphabet")
+		if rapid.IntRange(0, 4).Draw(t, "repeat") == 0 {
+			alpha = string(alpha[rapid.IntRange(0, len(alpha)-1).Draw(t, "one")])
+		}
+		for i := range e {
+			e[i] = alpha[rapid.IntRange(0, len(alpha)-1).Draw(t, "ch")]
+		}
+		return e
+	})
+}
+
 // EntropyOfSize draws a valid entropy of the given size.
 func EntropyOfSize(size int) *rapid.Generator[Ent] {
 	return rapid.Custom(func(t *rapid.T) Ent {
@@ -123,8 +143,7 @@ func EntropyOfSize(size int) *rapid.Generator[Ent] {
 		case "text-like":
 			// every byte from one textual alphabet: entropy that "looks like" hex, digits, base64 or
 			// printable text (what input-sniffing conveniences key on)
-			alpha := rapid.SampledFrom([]string{"0123456789abcdef", "0123456789ABCDEF", "0123456789abcdefABCDEF", "0123456789",
-				"ABCDEFGHIJKLMNOPQRSTUVWXYZabcdefghijklmnopqrstuvwxyz0123456789+/", "abcdefghijklmnopqrstuvwxyz ", " !\"#$%&'()*+,-./0123456789:;<=>?@ABCDEFGHIJKLMNOPQRSTUVWXYZ[\\]^_`abcdefghijklmnopqrstuvwxyz{|}~"}).Draw(t, "alphabet")
+			alpha := rapid.SampledFrom(TextAlphabets).Draw(t, "alphabet")
 			for i := range e {
 				e[i] = alpha[rapid.IntRange(0, len(alpha)-1).Draw(t, "ch")]
 			}
